@@ -385,6 +385,13 @@ class BaseDiscretizer(BaseEstimator, TransformerMixin):
 
         return X
 
+    def _check_is_not_fitted(self) -> None:
+        """Checks for previous fits (to be called before a fit modifies any attribute)"""
+        assert not self.is_fitted, (
+            " - [Discretizer] This Discretizer has already been fitted. "
+            "Fitting it anew could break established orders. Please initialize a new one."
+        )
+
     def fit(self, X: DataFrame = None, y: Series = None) -> None:
         """Learns simple discretization of values of X according to values of y.
 
@@ -400,10 +407,7 @@ class BaseDiscretizer(BaseEstimator, TransformerMixin):
         _, _ = X, y  # unused arguments
 
         # checking for previous fits of the discretizer that could cause unwanted errors
-        assert not self.is_fitted, (
-            " - [Discretizer] This Discretizer has already been fitted. "
-            "Fitting it anew could break established orders. Please initialize a new one."
-        )
+        self._check_is_not_fitted()
 
         # checking that all features to discretize are in values_orders
         missing_features = [
